@@ -37,12 +37,12 @@ Print Assumptions K8_use_kwargs.
 Definition C08_project_full : Prop :=
   forall (o: opts) (fs: list fplan) (vs: list fval),
     kw_ok o = true -> vals_ok fs vs = true ->
-    to_dict_model o fs vs = project (eff_of o) fs vs (plain_out fs vs).
+    to_dict_model o fs vs = Some (project (eff_of o) fs vs (plain_out fs vs)).
 
 Theorem C08_project_partial :
   forall (o: opts) (fs: list fplan) (vs: list fval),
     kw_ok o = true -> vals_ok fs vs = true -> flag_defaults_ok o = true ->
-    to_dict_model o fs vs = project (eff_of o) fs vs (plain_out fs vs).
+    to_dict_model o fs vs = Some (project (eff_of o) fs vs (plain_out fs vs)).
 Proof. exact project_partial. Qed.
 Print Assumptions C08_project_partial.
 
@@ -51,12 +51,22 @@ Theorem C08_project_refuted : ~ C08_project_full.
 Proof. exact project_full_refuted. Qed.
 Print Assumptions C08_project_refuted.
 
+(* known finding C08/omit-default-nan-isnan: vals_ok asks that a field with a NaN default holds a
+   number; without that clause (vals_ok_weak) the generated `not isnan(value)` raises TypeError on
+   None although the projection is defined *)
+Theorem C08_nan_default_refuted :
+  kw_ok nan_opts = true /\ vals_ok_weak nan_fields nan_vals = true /\ flag_defaults_ok nan_opts = true /\
+  to_dict_model nan_opts nan_fields nan_vals = None /\
+  project (eff_of nan_opts) nan_fields nan_vals (plain_out nan_fields nan_vals) = [("m", PNone)].
+Proof. exact nan_default_refuted. Qed.
+Print Assumptions C08_nan_default_refuted.
+
 (* what the body computes on the whole lattice, D14 included: the projection under the DEFAULT
    METHOD's keyword defaults *)
 Theorem C08_project_actual :
   forall (o: opts) (fs: list fplan) (vs: list fval),
     kw_ok o = true -> vals_ok fs vs = true ->
-    to_dict_model o fs vs = project (eff_d14 o) fs vs (plain_out fs vs).
+    to_dict_model o fs vs = Some (project (eff_d14 o) fs vs (plain_out fs vs)).
 Proof. exact project_actual. Qed.
 Print Assumptions C08_project_actual.
 
@@ -77,5 +87,5 @@ Definition ex_vals : list fval :=
 Example C08_project_nonvacuous :
   kw_ok ex_opts = true /\ vals_ok ex_fields ex_vals = true /\ flag_defaults_ok ex_opts = true /\
   plain_out ex_fields ex_vals = [("z", PStr "2020-01-01"); ("n", PNone); ("d", PBool true); ("h", PInt 7); ("a", PInt 5)] /\
-  to_dict_model ex_opts ex_fields ex_vals = [("A", PInt 5); ("Z", PStr "2020-01-01")].
+  to_dict_model ex_opts ex_fields ex_vals = Some [("A", PInt 5); ("Z", PStr "2020-01-01")].
 Proof. repeat split; reflexivity. Qed.
